@@ -291,7 +291,9 @@ class PointTier(textgrid_tier.TextgridTier):
                 elif point.time > end:
                     newEntries.append(Point(point.time - diff, point.label))
 
-            newMax = newTier.maxTimestamp - diff
+            # A span that ended where the erased region ended now ends where
+            # it started (end - diff may differ from start by a rounding error)
+            newMax = start if newTier.maxTimestamp == end else newTier.maxTimestamp - diff
             newTier = newTier.new(entries=newEntries, maxTimestamp=newMax)
 
         return newTier
